@@ -881,6 +881,10 @@ func (t *FnTrans) constGlobalVal(g *ssa.Global, cg *constGlobal, ty types.Type) 
 		arr := t.declare(name+".arr", arraySort(t.mode.idxSort(), es))
 		var facts []string
 		facts = append(facts, sx("<", name, "0"))
+		for other := range t.constArrs {
+			facts = append(facts, not(eq(name, other)))
+		}
+		t.constElemSort[name] = es
 		for i, c := range cg.elems {
 			b, _ := constToBig(c)
 			facts = append(facts, eq(sx("select", arr, t.mode.intLit64(int64(i), 64)), t.mode.intLit(b, w)))
